@@ -772,6 +772,47 @@ func scoreSequences(r *ev.Run, ver, lv int) {
 			}
 		}
 	}
+	// (f) decoding through a nil receiver after nil-receiver decodes that failed half-way (a pooled
+	// or cached internal decoder must not leak what the failed input had already written)
+	for level := lv; level < 3; level++ {
+		for _, bg := range bgs {
+			full := lang.Project(ver, level, bg.tok)
+			var fails []string
+			for _, bad := range []string{"AV:Q", "ZZ:N", "A:"} {
+				fails = append(fails, canonicalWritten(ver, level, bg.ver, full)+"/"+bad)
+			}
+			for _, m := range spec.UpTo(ver, level) {
+				if m.Level == 0 {
+					continue
+				}
+				t := copyTok(full)
+				t[m.Name] = "Q" // an invalid value for one optional metric, after the others were accepted
+				fails = append(fails, canonicalWritten(ver, level, bg.ver, t))
+			}
+			// valid vectors that omit optional metrics (v2: whole groups)
+			var valids []map[string]string
+			valids = append(valids, lang.Project(ver, 0, full))
+			if level == 2 {
+				valids = append(valids, lang.Project(ver, 1, full))
+			}
+			valids = append(valids, full)
+			for _, f := range fails {
+				if _, err, _ := lib.Decode(lib.Nil(ver, level), f); err == nil {
+					continue
+				}
+				for _, vt := range valids {
+					sv := canonicalWritten(ver, level, bg.ver, vt)
+					o, err, pan := lib.Decode(lib.Nil(ver, level), sv)
+					n++
+					if pan != "" || err != nil || o == nil {
+						r.Violate(ev.Violation{Kind: "valid-vector-not-decoded", Case: map[string]any{"cvss": ver, "decoder": spec.LevelNames[level], "history": []string{"(nil).Decode(" + f + ") fails", "(nil).Decode(" + sv + ")"}}, Observed: fmt.Sprintf("err=%v panic=%q", err, pan), Expected: "accepted"})
+						continue
+					}
+					checkScoreOf(r, ver, level, lv, bg.ver, vt, o, []string{"(nil).Decode(" + f + ") fails", "(nil).Decode(" + sv + ")"})
+				}
+			}
+		}
+	}
 	r.Add("score_sequences", n)
 	r.Add("evaluations", n)
 }
